@@ -928,8 +928,10 @@ func varargElems(sl ssa.Value) []ssa.Value {
 // callee string. arg0.. are the call's arguments (receiver first); locals resolve to the value they
 // have at the call.
 func (fe *FuncEnc) callSiteAsserts(v ssa.Value, c *ssa.CallCommon, st *State, args []string, pos token.Pos) {
+	// (the clauses of a function also apply inside the function literals that are encoded inline
+	// with it; a clause naming a local applies where that local is in scope - see below)
 	root := fe.root()
-	if root.c == nil || len(root.c.CallSites) == 0 || fe != root {
+	if root.c == nil || len(root.c.CallSites) == 0 {
 		return
 	}
 	name := ""
@@ -989,18 +991,40 @@ func (fe *FuncEnc) unresolvedAtCall(env *Env, e CExpr) string {
 		}
 		switch t := x.(type) {
 		case *CIdent:
-			if bound[t.Name] || !locals[t.Name] {
-				return
-			}
-			if _, isParam := fe.params[t.Name]; isParam {
+			if bound[t.Name] {
 				return
 			}
 			if _, ok := env.vars[t.Name]; ok {
 				return
 			}
-			if _, ok := fe.resolveLocalAtCall(env, t.Name); !ok {
-				missing = t.Name
+			if _, ok := fe.resolveLocalAtCall(env, t.Name); ok {
+				return
 			}
+			if locals[t.Name] {
+				missing = t.Name // a local of this function, not in scope at this call
+				return
+			}
+			if _, isParam := fe.params[t.Name]; isParam {
+				return
+			}
+			if fe.closureBind != nil {
+				if _, ok := fe.closureBind[t.Name]; ok {
+					return
+				}
+			}
+			if _, ok := env.st.ghost[t.Name]; ok {
+				return
+			}
+			if _, ok := fe.eng.cs.Ghosts["$global."+t.Name]; ok {
+				return
+			}
+			if env.pkg != nil {
+				if obj := env.pkg.Scope().Lookup(t.Name); obj != nil {
+					return
+				}
+			}
+			// not a name of this function at all (a local of another function literal)
+			missing = t.Name
 		case *CBinary:
 			walk(t.X, bound)
 			walk(t.Y, bound)
